@@ -83,4 +83,9 @@ META = {
                     "Values: every const operation value vs Map vs const Map within 4 ulp; random mutating histories replayed on a plain value.",
             "note": "ASan shadow granularity (8 bytes) limits poisoning next to float views; the sentinel and page monitors cover that. Sampled executions only.",
             "technique": "runtime monitoring: ASan manual poisoning + sentinel snapshots + mprotect guard pages, differential value-vs-view histories"},
+    "C11": {"text": "Exploration: cspline_eval_vs/gs value, velocity, acceleration and jerk against the product of long-double matrix exponentials "
+                    "differentiated by order-3 matrix jets (no Ad-transport recursion), and cspline_eval_dg_dvs/dg_dgs with their velocity and "
+                    "acceleration Jacobians against extended-precision central differences of that oracle with right perturbations; degrees 1..6, five "
+                    "group types, Bernstein/B-spline/random bases, u at the ends and 1e-9 inside.",
+            "note": _ALG_NOTE, "technique": "runtime monitoring: reference-model oracle (matrix jets + extended-precision differentiation), ASan/UBSan"},
 }
